@@ -27,7 +27,7 @@ EXPECT = (2103, 12, 21)
 
 
 def sh(cmd, **kw):
-    return subprocess.run(cmd, shell=isinstance(cmd, str), capture_output=True, text=True, **kw)
+    return subprocess.run(cmd, shell=isinstance(cmd, str), capture_output=True, text=True, errors='replace', **kw)
 
 
 def run_tests(tree: str) -> tuple:
